@@ -21,7 +21,7 @@ for pid in ids:
     for h in cfg["harness"]:
         e = dict(env); e.update(h.get("env", {})); e["GOCOVERDIR"] = work + "/data"
         b = f"{work}/h_{h['cmd']}"
-        r = subprocess.run(["go", "build", "-cover", "-coverpkg=example.com/scion-time/...", "-tags", "verif", "-o", b, "./cmd/" + h["cmd"]],
+        r = subprocess.run(["go", "build", "-cover", "-coverpkg=./...,example.com/scion-time/...", "-tags", "verif", "-o", b, "./cmd/" + h["cmd"]],
                            cwd=os.path.join(root, "harness"), env=e, capture_output=True, text=True)
         if r.returncode != 0:
             print(pid, h["cmd"], "build failed", r.stdout[-300:], r.stderr[-300:]); continue
@@ -35,8 +35,8 @@ for pid in ids:
             m = re.match(r"example.com/scion-time/(\S+):(\d+)\.\d+,(\d+)\.\d+ (\d+) (\d+)", l)
             if m:
                 f, a, b_, n, c = m.group(1), int(m.group(2)), int(m.group(3)), int(m.group(4)), int(m.group(5))
-                blocks[f][(a, b_)] = max(blocks[f].get((a, b_), (0, 0))[1], c), 
-                blocks[f][(a, b_)] = (n, max(c, blocks[f].get((a, b_), (n, 0))[1]) if isinstance(blocks[f].get((a, b_)), tuple) and len(blocks[f][(a, b_)]) == 2 else (n, c))
+                old = blocks[f].get((a, b_), (n, 0))
+                blocks[f][(a, b_)] = (n, max(c, old[1]))
     out = []
     for f in props[pid]["anchors"]["files"]:
         bl = blocks.get(f, {})
